@@ -35,7 +35,17 @@ def canary_auth(traces):
 
 def run(tier):
     wd = workdir('C08')
-    mc = [{'name': 'SmtpServer graph (shared with C07)', 'module': 'SmtpServer', 'cfg': 'SmtpServer.cfg'}]
+    mc = [{'name': 'SmtpServer: complete graph with STARTTLS and AUTH configured (intended design: C07 and C08 invariants)', 'module': 'SmtpServer',
+           'cfg': 'SmtpServer.cfg', 'coverage': True},
+          {'name': 'deviation KF_BufferSurvivesTls (D7 as found): TLC must find the clear-text bytes acted on after the handshake',
+           'module': 'SmtpServer', 'cfg': 'SmtpServer_kf7.cfg', 'expect_violation': ['C08_NoCrossing']},
+          {'name': 'deviation KF_FlagsSurviveTls (D8 as found): TLC must find the transaction that survives the handshake',
+           'module': 'SmtpServer', 'cfg': 'SmtpServer_kf8.cfg', 'expect_violation': ['C08_FreshAfterTls', 'C07_StateSane']},
+          {'name': 'deviation KF_BareArg421 (D9 as found): TLC must find the bare AUTH/MAIL/RCPT that ends the session',
+           'module': 'SmtpServer', 'cfg': 'SmtpServer_kf9.cfg', 'expect_violation': ['C07_ErrorsDoNotClose', 'C08_AuthMalformed', 'C07_NoCallbackOnError']},
+          {'name': 'deviation KF_PlainAuthNoTls (D27, the code as it is with the installed pysasl - known finding): TLC must find the '
+                   'plain-text mechanism accepted without TLS', 'module': 'SmtpServer', 'cfg': 'SmtpServer_kf27.cfg',
+           'expect_violation': ['C08_AuthGate']}]
     return flow.standard(
         'C08', tier, mc, 'c08', 'Trace_Tls', 'Trace_Tls.cfg', [canary_crossing, canary_stale, canary_auth],
         level='exploration',
